@@ -1,6 +1,7 @@
 (* C01 — Block encode -> decode is the identity for every column type and nesting.
    Nothing but statements closed by [exact], each followed by Print Assumptions. *)
-From CH Require Import model.Columns model.Block model.Messages proofs.PrimProofs proofs.ColumnsProofs proofs.ColumnsProofs2 proofs.BlockProofs.
+From CH Require Import model.Columns model.ColState model.Block model.Messages proofs.PrimProofs proofs.ColumnsProofs proofs.ColumnsProofs2 proofs.BlockProofs
+  proofs.ColStateProofs proofs.ColStateProofs2.
 From CH Require Import gen.Features gen.Consts.
 Open Scope N_scope.
 Open Scope list_scope.
@@ -31,6 +32,19 @@ Proof.
   rewrite (ColumnsProofs2.column_roundtrip t b b' n d rest Hw Hn Hd Hr) in H. injection H as <- _. now split.
 Qed.
 Print Assumptions decoded_rows_equal.
+
+(* at the level of Go row values, for every nesting: a column that holds the rows [l] (built by any history of
+   appends, C16 append_once) encodes, after Prepare, to bytes that either build decodes to a column whose
+   accessors report exactly [l] *)
+Theorem values_roundtrip : forall b b' t d l d' rest,
+  c16_ty t = true -> inv (t, d) l -> prepare t d = Some d' -> small t d' -> rows t d' <= max_rows ->
+  dec b' t (rows t d') (enc b t d' ++ rest) = Ok d' rest /\ abs t d' = Some l.
+Proof.
+  intros b b' t d l d' rest Hc [Hg Ha] Hp Hs Hr.
+  destruct (encode_readback b t d d' Hc Hg Hp) as [_ [Habs Hrt]].
+  split; [exact (proj1 (Hrt Hs Hr b' rest))|]. cbn [fst snd] in Ha. now rewrite Habs.
+Qed.
+Print Assumptions values_roundtrip.
 
 (* whole blocks, at every revision: block info (iff the revision has it), column count, row count,
    names, types and contents come back; blank target names are filled in *)
